@@ -125,6 +125,8 @@ struct Live {
     b: Blocker,
     accepted: Vec<String>,
     tags: BTreeSet<String>,
+    /// add_filter answered FilterExists for a rule that was never added (a dropped rule)
+    wrongly_rejected: Option<String>,
 }
 fn fresh(accepted: &[String], tags: &BTreeSet<String>) -> Blocker {
     let rules: Vec<NetworkFilter> = accepted.iter().filter_map(|l| NetworkFilter::parse(l, true, Default::default()).ok()).collect();
@@ -136,8 +138,18 @@ fn apply(l: &mut Live, o: &Op) {
     match o {
         Op::Add(line) => {
             if let Ok(f) = NetworkFilter::parse(line, true, Default::default()) {
-                if l.b.add_filter(f).is_ok() {
+                // which rules count as loaded is decided HERE, not by the answer of add_filter: a rule is
+                // refused only when it is a $badfilter rule or the very same line was added before
+                // (filter_exists may miss a duplicate, which is harmless, but must never invent one)
+                use adblock::filters::network::NetworkFilterMaskHelper;
+                let dup = l.accepted.iter().any(|x| x.trim() == line.trim());
+                let bad = f.is_badfilter();
+                let res = l.b.add_filter(f);
+                if !bad && !dup {
                     l.accepted.push(line.clone());
+                    if res.is_err() && l.wrongly_rejected.is_none() {
+                        l.wrongly_rejected = Some(format!("add_filter({:?}) answered {:?} although that rule was never added", line, res));
+                    }
                 }
             }
         }
@@ -169,18 +181,24 @@ fn regex_rule(r: &mut Rng) -> String {
     }
 }
 fn gen_op(r: &mut Rng, accepted: &[String]) -> Op {
-    let tags = |r: &mut Rng| (0..r.range(0, 2)).map(|_| r.pick(gen::TAGS).to_string()).collect::<Vec<_>>();
+    // tag lists of 0-4 entries with repetitions, over the rule tags plus a tag no rule carries: a
+    // disable / enable call that mixes enabled, not-enabled and unknown tags is the ordinary case
+    let tags = |r: &mut Rng| (0..r.range(0, 4)).map(|_| r.pick(&["t1", "t2", "t3", "t1", "t2", "zz"]).to_string()).collect::<Vec<_>>();
     match r.below(20) {
-        0..=4 => Op::Add(if r.chance(1, 2) { regex_rule(r) } else { gen::rule(r, true) }),
+        // a small family of rules sharing one token and differing in the last path segment or in one
+        // option: they are neighbours in one bucket, get fused by optimize(), and later additions are
+        // near twins (same pattern, other option) of rules already fused
+        0 | 1 => Op::Add(format!("/fam{}/x{}{}", r.below(2), r.below(5), r.pick(&["", "$image", "$script", "$image", "$script,third-party", "$tag=t1"]))),
+        2..=4 => Op::Add(if r.chance(1, 2) { regex_rule(r) } else { gen::rule(r, true) }),
         5 => Op::Add(if accepted.is_empty() { gen::rule(r, true) } else { accepted[r.below(accepted.len())].clone() }),
         6 => Op::Use(tags(r)),
         7 | 8 => Op::Enable(tags(r)),
-        9 => Op::Disable(tags(r)),
+        9 | 13 => Op::Disable(tags(r)),
         10 => Op::Policy(r.pick(&[1u64, 1, 1_000_000_000_000]), r.pick(&[0u64, 0, 1_000_000_000_000])),
         11 => Op::DiscardAll,
-        12 => if r.chance(1, 3) { Op::Optimize } else { Op::DiscardAll },
+        12 => if r.chance(2, 3) { Op::Optimize } else { Op::DiscardAll },
         _ => {
-            let url = if r.chance(2, 3) && !accepted.is_empty() { { let k = r.below(accepted.len()); gen::url_for(r, &accepted[k]) } } else { gen::url(r) };
+            let url = if r.chance(1, 4) { format!("https://{}/fam{}/x{}", r.pick(gen::HOSTS), r.below(2), r.below(5)) } else if r.chance(2, 3) && !accepted.is_empty() { { let k = r.below(accepted.len()); gen::url_for(r, &accepted[k]) } } else { gen::url(r) };
             let url = url.replace('*', "1");
             let src = { let s = gen::source_url(r); if s.is_empty() { "https://a.com/page".to_string() } else { s } };
             Op::Query(url, src, r.pick(&["script", "document", "subdocument", "image", "xhr", "other"]).to_string())
@@ -191,10 +209,13 @@ fn gen_op(r: &mut Rng, accepted: &[String]) -> Op {
 /// Runs a history; returns the first failure message.
 fn run_history(ops: &[Op], mut on_query: impl FnMut(&Live, &Request, &Obs, usize), mut on_state: impl FnMut(&Live, usize)) -> Option<(usize, String)> {
     let rs = resources();
-    let mut l = Live { b: Blocker::new(vec![], &BlockerOptions { enable_optimizations: false }), accepted: vec![], tags: BTreeSet::new() };
+    let mut l = Live { b: Blocker::new(vec![], &BlockerOptions { enable_optimizations: false }), accepted: vec![], tags: BTreeSet::new(), wrongly_rejected: None };
     let mut optimized = false;
     for (i, o) in ops.iter().enumerate() {
         apply(&mut l, o);
+        if let Some(m) = l.wrongly_rejected.take() {
+            return Some((i, m));
+        }
         if let Op::Optimize = o { optimized = true }
         if let Op::Query(u, s, t) = o {
             let Ok(req) = Request::new(u, s, t) else { continue };
@@ -336,7 +357,7 @@ fn main() {
         // cache invariant on the final dumped state, evaluated in Coq
         {
             let rs = resources();
-            let mut l = Live { b: Blocker::new(vec![], &BlockerOptions { enable_optimizations: false }), accepted: vec![], tags: BTreeSet::new() };
+            let mut l = Live { b: Blocker::new(vec![], &BlockerOptions { enable_optimizations: false }), accepted: vec![], tags: BTreeSet::new(), wrongly_rejected: None };
             for o in ops.iter() {
                 apply(&mut l, o);
                 if let Op::Query(u, s, t) = o { if let Ok(req) = Request::new(u, s, t) { let _ = l.b.check(&req, &rs); } }
